@@ -114,8 +114,11 @@ type ofSingleUser struct {
 	dep *ofTransDep
 }
 
-func (d *ofTransDep) Close() error   { d.log.events = append(d.log.events, "transient-dep"); return nil }
-func (u *ofSingleUser) Close() error { u.log.events = append(u.log.events, "singleton-user"); return nil }
+func (d *ofTransDep) Close() error { d.log.events = append(d.log.events, "transient-dep"); return nil }
+func (u *ofSingleUser) Close() error {
+	u.log.events = append(u.log.events, "singleton-user")
+	return nil
+}
 
 // C11: a transient that a singleton received as a dependency is owned by the root scope, which provider.Close closes before the
 // singletons: the dependency is closed while the singleton holding it is still open.
@@ -153,40 +156,5 @@ func TestOpen_ProviderClosedDuringBuildLeaksTheSingleton(t *testing.T) {
 	}
 	if n := atomic.LoadInt32(&created.closes); n != 1 || closedProvider {
 		t.Errorf("REPLAY-CONFIRMED open[provider_closed_during_build]: the singleton whose construction overlapped Close was closed %d times (want 1); Build returned an already closed provider with a nil error: %v", n, closedProvider)
-	}
-}
-
-type ofOutA struct{ id int64 }
-type ofOutB struct{}
-type ofOutNil struct {
-	Out
-	A *ofOutA
-	B *ofOutB // left nil by the constructor
-}
-
-// C02: a scoped result object with a nil field: resolving the nil field's type runs the constructor again, overwrites the sibling
-// that is already cached, and then fails: one scope ends up with two instances of the sibling.
-func TestOpen_ScopedResultObjectWithNilFieldRecreatesItsSibling(t *testing.T) {
-	var calls int64
-	c := NewCollection()
-	c.AddScoped(func() ofOutNil { return ofOutNil{A: &ofOutA{id: atomic.AddInt64(&calls, 1)}} })
-	p, err := c.Build()
-	if err != nil {
-		t.Fatal(err)
-	}
-	defer p.Close()
-	sc, _ := p.CreateScope(context.Background())
-	defer sc.Close()
-	a1, err := Resolve[*ofOutA](sc)
-	if err != nil {
-		t.Fatal(err)
-	}
-	Resolve[*ofOutB](sc)
-	a2, err := Resolve[*ofOutA](sc)
-	if err != nil {
-		t.Fatal(err)
-	}
-	if a1 != a2 {
-		t.Errorf("REPLAY-CONFIRMED open[scoped_result_object_with_nil_field]: one scope returned two instances of *ofOutA (ids %d and %d); the constructor ran %d times", a1.id, a2.id, calls)
 	}
 }
